@@ -15,7 +15,7 @@ from sa.cfg import NORMAL, describe_path
 from sa.report import Report
 from sa.statemodel import StateModel, _has_inst
 from sa import pat
-from sa.util import fact_in
+from sa.util import disjunctions, fact_in
 from rules.C08 import C08, cfg_root
 
 INDEX_ATTRS = {"_oids", "_paths", "_changeset_storage", "_changeset"}
@@ -108,8 +108,8 @@ class C11:
         add_guard = False
         for c in adds:
             facts = ctx.facts_at(f, c)
-            for (txt, pol) in facts:
-                if pol and val in txt and "oid" in txt and "changed" in txt and " or " in txt:
+            for dj in disjunctions(facts):
+                if len(dj) == 2 and any(d.split(" and ")[0] == val and ".oid" in d for d in dj) and any(".changed" in d and ".oid" in d for d in dj):
                     add_guard = True
         rep.check("C11.X2", "updated|changed|add-guard", f, add_guard, "add under (val and this side has an id) or (other side changed with an id)",
                   "pending-set add in the 'changed' arm is no longer guarded by 'changed value and id present, or other side pending'")
@@ -309,3 +309,48 @@ def run(ctx: Ctx, rep: Report, tier: str):
     from rules.C06 import C06
     alias(rep, ["C06.R5"], "C11.X8", "after a restart the indexes are rebuilt for every stored entry: each loaded entry is entered in the id index and in the (path, id) "
           "index of both sides (C06.R5), so two entries sharing a path are both found", 1, lambda: C06(ctx, rep).r5(), keep=lambda i: i.key == "load|indexes")
+    rep.rule("C11.X9", "discarding an entry takes it out of the pending set together with BOTH sides' changed flags (pending-set membership and the flags "
+             "never disagree: a flag left set on a discarded entry re-queues it after a restart / makes `changed` and the set diverge)", 2)
+    up = ctx.prog.func("SyncState.updated")
+    entp = up.params()[1]
+    sides = set()
+    disc = False
+    for n in ctx.own_nodes(up):
+        facts = None
+        if isinstance(n, ast.Assign) and isinstance(n.targets[0], ast.Attribute) and n.targets[0].attr in ("_changed", "changed") and isinstance(n.value, ast.Constant) and not n.value.value:
+            facts = ctx.facts_at(up, n)
+            if _has_fact(facts, "$V == IgnoreReason.DISCARDED", True):
+                m = pat.match("%s[$S]" % entp, n.targets[0].value)
+                if m is not None:
+                    sides.add(ast.unparse(m["S"]))
+        if isinstance(n, ast.Call) and pat.match("self._changeset_storage.discard(%s)" % entp, n) is not None and _has_fact(ctx.facts_at(up, n), "$V == IgnoreReason.DISCARDED", True):
+            disc = True
+    loop_both = any(isinstance(n, ast.For) and ast.unparse(n.iter) in ("(LOCAL, REMOTE)", "[LOCAL, REMOTE]") for n in ctx.own_nodes(up))
+    rep.check("C11.X9", "updated|discard|flags", up, {"LOCAL", "REMOTE"} <= sides or (loop_both and sides), "both sides' flags cleared (%s)" % sorted(sides),
+              "the DISCARDED arm of updated() clears the changed flag of %s only: the entry leaves the pending set with a side still flagged changed" % (sorted(sides) or "no side"))
+    rep.check("C11.X9", "updated|discard|set", up, disc, "removed from the pending set", "the DISCARDED arm no longer removes the entry from the pending set")
+    rep.rule("C11.X10", "forgetting the state empties every tracked container together: both index maps, the pending set and the dirty set are reset in "
+             "SyncState.forget (an entry must never stay pending after its index entries are gone)", 4)
+    fg = ctx.prog.func("SyncState.forget")
+    fs_ = [fg]
+    for n in ctx.own_nodes(fg):
+        if isinstance(n, ast.Call) and isinstance(n.func, ast.Attribute) and isinstance(n.func.value, ast.Name) and n.func.value.id == fg.self_name:
+            h = fg.cls.methods.get(n.func.attr)
+            if h is not None and h not in fs_:
+                fs_.append(h)
+    reset = set()
+    for f_ in fs_:
+        for n in ctx.own_nodes(f_):
+            if isinstance(n, ast.Attribute) and isinstance(n.ctx, ast.Store) and isinstance(n.value, ast.Name) and n.value.id == f_.self_name:
+                reset.add(n.attr)
+            if isinstance(n, ast.Call) and isinstance(n.func, ast.Attribute) and n.func.attr == "clear":
+                r_ = n.func.value
+                while isinstance(r_, ast.Subscript):
+                    r_ = r_.value
+                if isinstance(r_, ast.Attribute) and isinstance(r_.value, ast.Name) and r_.value.id == f_.self_name:
+                    reset.add(r_.attr)
+    if "_changeset" in reset:
+        reset.add("_changeset_storage")         # the property setter stores the backing set
+    for attr in ("_oids", "_paths", "_changeset_storage", "_dirtyset"):
+        rep.check("C11.X10", "forget|%s" % attr, fg, attr in reset, "reset by forget()",
+                  "SyncState.forget no longer resets `%s`: after forget() the containers disagree (e.g. entries still pending whose index entries and rows are gone)" % attr)
